@@ -449,7 +449,7 @@ def make_machine(ctx, last):
     from hypothesis import strategies as st
     from hypothesis.stateful import RuleBasedStateMachine, rule, precondition, initialize
 
-    dyadic = st.sampled_from([0.0, 0.25, 0.5, 1.0, 1.5, 2.0, 3.0])
+    dyadic = st.sampled_from([0.0, 0.0, 0.25, 0.5, 1.0, 1.5, 2.0, 3.0])     # (0.0 is the registry's default value: a boundary)
 
     class Histories(RuleBasedStateMachine):
         def __init__(self):
@@ -536,6 +536,16 @@ def make_machine(ctx, last):
             elif then == "add_sub":
                 self._do({"op": "add_sub", "circ": {"reps": 1, "items": [{"k": "Rx180", "q": [0]}, {"k": "Rx180", "q": [1]}]}})
 
+        @rule(key=st.sampled_from(["k0", "k1"]), v=st.sampled_from([0.25, 0.5, 1.0, 1.5, 2.0, 3.0]), q=st.integers(0, 3),
+              what=st.sampled_from(["times", "duration", "operations", "stim"]), back=st.sampled_from([0.0, 0.0, 1.0, 0.5]))
+        def registry_duration_assigned_twice(self, key, v, q, what, back):
+            """A registry-timed operation whose key is assigned a value, looked at, and assigned again - also back to 0.0 (what a
+            key that was never assigned reads as), 1.0 and 0.5 (the values the keys start with)."""
+            self._do({"op": "add_op", "item": {"k": "Wait", "q": [q], "ch": "ALL", "d": ["reg", key]}})
+            self._do({"op": "set_dur", "key": key, "v": v})
+            self._do({"op": "obs", "what": what})
+            self._do({"op": "set_dur", "key": key, "v": back})
+
         @rule(v=st.integers(1, 3))
         def set_rep(self, v):
             self._do({"op": "set_rep", "key": "r0", "v": v})
@@ -591,6 +601,6 @@ def body_replay(case, ctx):
 
 
 def parts():
-    return [Part("histories", body_replay, strategy=make_machine, stateful=True, quick=260, thorough=600,
+    return [Part("histories", body_replay, strategy=make_machine, stateful=True, quick=340, thorough=700,
                  steps_quick=16, steps_thorough=22),
             Part("dynamic_durations", body_dynamic, strategy=strat_dynamic, quick=300, thorough=3000)]
